@@ -71,6 +71,15 @@ static void prf(void)
         ascon_prf_fixed_init(&s, key, decl[d]); ascon_prf_absorb(&s, msg, il); ascon_prf_squeeze(&s, o, 40); ascon_prf_free(&s);
         cmpo("prf:fixed-incremental", o, exp, 40, "declared/inlen", decl[d], il, 0, 0); hx_free(o);
     }
+    /* declared lengths whose bit count does not fit the 32-bit field of the initial value: documented to mean arbitrary-length output (the same as declared 0) */
+    static const size_t big[] = {(size_t)1 << 29, ((size_t)1 << 29) + 1, (size_t)1 << 31, (size_t)1 << 32, ((size_t)1 << 61) + 2, (size_t)-1};
+    for (unsigned d = 0; d < 6; d++) for (int re = 0; re < 2; re++) {
+        uint8_t *o = hx_buf(40); ascon_prf_state_t s;
+        ref_prf(key, 0, msg, 13, exp, 40);
+        if (re) { ascon_prf_fixed_init(&s, key, 24); ascon_prf_absorb(&s, msg, 5); ascon_prf_fixed_reinit(&s, key, big[d]); } else ascon_prf_fixed_init(&s, key, big[d]);
+        ascon_prf_absorb(&s, msg, 13); ascon_prf_squeeze(&s, o, 40); ascon_prf_free(&s);
+        cmpo("prf:fixed-incremental", o, exp, 40, "declared (too large: arbitrary length)/reinit", big[d], re, 0, 0); hx_free(o);
+    }
     hx_sample("prf: inlen 0..%d x outlen 0..%d, one-shot / incremental / fixed / fixed-incremental, pattern %d", maxin, maxout, pat);
     free(msg); free(exp);
 }
